@@ -2,7 +2,7 @@
    descriptors, the time and coordinate descriptors, and the definitions of
    fields the profile does not list. *)
 From Coq Require Import NArith List Bool.
-From FitV Require Import Proofs.C01Cells.
+From FitV Require Import Proofs.Util Proofs.C01Cells.
 Local Open Scope N_scope.
 
 Lemma plane_native_array : plane_ok 0 true = true.
@@ -17,5 +17,5 @@ Proof. vm_compute. reflexivity. Qed.
 Lemma plane_lng : plane_ok 4 false = true.
 Proof. vm_compute. reflexivity. Qed.
 
-Lemma nodesc_ok_true : nodesc_ok = true.
+Lemma nodesc_ok_true : nodesc_ok_on (Util.range 256 0) = true.
 Proof. vm_compute. reflexivity. Qed.
